@@ -39,6 +39,15 @@ def stepExpr (toks : List String) : Option String :=
     let q ← qtyOf q; let w ← w.toNat?; let e ← parseExpr rest
     let r := evalL q w e
     pure (showMoc r.depth r.items)
+  -- C04: same model function, the implementation side goes through the FITS writer / reader
+  | "expr_fits" :: q :: w :: rest => do
+    let q ← qtyOf q; let w ← w.toNat?; let e ← parseExpr rest
+    let r := evalL q w e
+    pure (showMoc r.depth r.items)
+  | ["l_check", s] => do let s ← parseSrc s; pure (showSrc (checkSrc s))
+  | ["l_convert", q, w, w', s] => do
+    let q ← qtyOf q; let w ← w.toNat?; let w' ← w'.toNat?; let s ← parseSrc s
+    pure (showSrc (convertSrc (w' - w) (q.maxDepth w') s))
   | _ => none
 
 end Drv
